@@ -333,9 +333,11 @@ pub fn mon_put(s: &mut dyn Subject, ctx: &mut Ctx, filt: &dyn Fn(&CaseDesc, &Fie
         if !fd.writable || !filt(d, fd) {
             continue;
         }
-        if fd.self_overlapping() && !ctx.cfg.judge_panics_only {
-            ctx.st.count("fields-skipped/list-names-a-bit-twice", 1);
-            continue;
+        // a list that names a bit twice: what lands inside the field is outside every guarantee, but the write must still
+        // leave every bit outside the field alone, not touch its receiver, and set_ must agree with with_
+        let outside_only = fd.self_overlapping();
+        if outside_only {
+            ctx.st.count("fields-judged-on-outside-bits-only/list-names-a-bit-twice", 1);
         }
         ctx.st.fields += 1;
         ctx.st.shape(shape_of(d, fd));
@@ -391,7 +393,12 @@ pub fn mon_put(s: &mut dyn Subject, ctx: &mut Ctx, filt: &dyn Fn(&CaseDesc, &Fie
                                 bad = true;
                                 ctx.violate(VKind::Invariant, d, "put", "with_ changed its receiver", Some((fd, i as usize)), OP_WITH, r, arg, &format!("receiver {:#x}", recv), &format!("receiver {:#x}", r), &[]);
                             }
-                            if st != exp {
+                            if outside_only {
+                                if (st ^ r) & !fmask != 0 {
+                                    bad = true;
+                                    ctx.violate(VKind::Invariant, d, "put", &format!("with_ changed bits outside the field (xor {:#x})", (st ^ r) & !fmask), Some((fd, i as usize)), OP_WITH, r, arg, &format!("{:#x}", st), &format!("bits outside {:#x} as in {:#x}", fmask, r), &[]);
+                                }
+                            } else if st != exp {
                                 bad = true;
                                 ctx.violate(VKind::Model, d, "put", "with_ result differs from 'field bits = value, all other bits unchanged'", Some((fd, i as usize)), OP_WITH, r, arg, &format!("{:#x}", st), &format!("{:#x}", exp), &[]);
                             } else if rv != exp {
@@ -401,7 +408,7 @@ pub fn mon_put(s: &mut dyn Subject, ctx: &mut Ctx, filt: &dyn Fn(&CaseDesc, &Fie
                             if let Some(b) = back {
                                 ctx.eval_obs(OP_GET, fi, i as usize, st, 2, &b);
                                 let e = expect_obs(fd, pat);
-                                if b != e {
+                                if b != e && !outside_only {
                                     bad = true;
                                     ctx.violate(VKind::Model, d, "put", "read-back after with_ differs from the written value", Some((fd, i as usize)), OP_GET, r, arg, &b.show(), &e.show(), &[]);
                                 }
@@ -422,7 +429,7 @@ pub fn mon_put(s: &mut dyn Subject, ctx: &mut Ctx, filt: &dyn Fn(&CaseDesc, &Fie
                                     if st2 != st {
                                         bad = true;
                                         ctx.violate(VKind::Invariant, d, "put", "set_ leaves a different object than with_ returns", Some((fd, i as usize)), OP_SET, r, arg, &format!("set_: {:#x}", st2), &format!("with_: {:#x}", st), &[]);
-                                    } else if st2 != exp {
+                                    } else if st2 != exp && !outside_only {
                                         bad = true;
                                     }
                                 }
@@ -689,7 +696,7 @@ pub fn mon_array(s: &mut dyn Subject, ctx: &mut Ctx, filt: &dyn Fn(&CaseDesc, &F
 fn all_getters(s: &mut dyn Subject, d: &CaseDesc) -> Vec<Obs> {
     let mut v = Vec::new();
     for (fi, fd) in d.fields.iter().enumerate() {
-        if !fd.readable {
+        if !fd.readable || fd.self_overlapping() {
             continue;
         }
         for i in 0..fd.count() {
@@ -702,7 +709,7 @@ fn all_getters(s: &mut dyn Subject, d: &CaseDesc) -> Vec<Obs> {
 fn model_getters(d: &CaseDesc, reg: &RefReg) -> Vec<Obs> {
     let mut v = Vec::new();
     for fd in d.fields.iter() {
-        if !fd.readable {
+        if !fd.readable || fd.self_overlapping() {
             continue;
         }
         for i in 0..fd.count() {
@@ -728,9 +735,8 @@ pub fn mon_hist(s: &mut dyn Subject, ctx: &mut Ctx, opts: &HistOpts) {
         ctx.st.count("cases-without-writable-field", 1);
         return;
     }
-    if d.fields.iter().any(|f| f.self_overlapping()) && !ctx.cfg.judge_panics_only {
-        ctx.st.count("cases-skipped/list-names-a-bit-twice", 1);
-        return;
+    if d.fields.iter().any(|f| f.self_overlapping()) {
+        ctx.st.count("cases-with-a-list-naming-a-bit-twice (its own bits are taken from the object, everything else is judged)", 1);
     }
     for fd in d.fields.iter() {
         ctx.st.fields += 1;
@@ -751,7 +757,8 @@ pub fn mon_hist(s: &mut dyn Subject, ctx: &mut Ctx, opts: &HistOpts) {
     let mut top_written = false;
     let mut rewraps = 0u64;
     let mut bad = false;
-    let n_hist = ctx.cfg.hist_count;
+    // the packed placement structs (48 overlapping fields each, thousands of them) get a quarter of the histories
+    let n_hist = if d.family == "single" { (ctx.cfg.hist_count / 4).max(4) } else { ctx.cfg.hist_count };
     for h in 0..=n_hist {
         if bad {
             // one witness per case is enough; later histories would only repeat it
@@ -787,7 +794,7 @@ pub fn mon_hist(s: &mut dyn Subject, ctx: &mut Ctx, opts: &HistOpts) {
             }
             let before = reg.to_raw();
             reg.write(&pos, pat);
-            let exp = reg.to_raw();
+            let mut exp = reg.to_raw();
             let res = guard::run(|| {
                 if use_set {
                     s.set(fi, i as usize, arg);
@@ -796,6 +803,14 @@ pub fn mon_hist(s: &mut dyn Subject, ctx: &mut Ctx, opts: &HistOpts) {
                 }
                 s.storage()
             });
+            if fd.self_overlapping() {
+                if let Ok(st) = &res {
+                    // the field's own bits are unspecified: adopt them, keep judging every other bit
+                    let fm = pos_mask(&pos);
+                    exp = (exp & !fm) | (*st & fm);
+                    reg = RefReg::from_raw(exp, bw);
+                }
+            }
             let st = match res {
                 Err(m) => {
                     bad = true;
@@ -890,6 +905,9 @@ pub fn mon_hist(s: &mut dyn Subject, ctx: &mut Ctx, opts: &HistOpts) {
         let mut slots: Vec<(usize, u32, u128)> = Vec::new();
         for &fi in &writable {
             let fd = &d.fields[fi];
+            if fd.self_overlapping() {
+                continue;
+            }
             for i in 0..fd.count().min(4) {
                 slots.push((fi, i, pos_mask(&fd.positions(i))));
             }
